@@ -13,7 +13,7 @@ import (
 
 func init() {
 	register(&Rule{Name: "bls.verify", Floor: 40,
-		Doc: "every BLS verification in zrnt (a) verifies over the whole 32-byte signing root (an unbounded [:] of the value returned by ComputeSigningRoot or a signing-root helper), (b) the signing root combines an object of the type the spec assigns to the signature domain that reaches it (traced through GetDomain/ComputeDomain/domain-function parameters to a DOMAIN_* variable), with the spec's fork-version class for fixed-version domains, and (c) a false result ends the path with an error/false/REJECT",
+		Doc: "every BLS verification in zrnt (a) verifies over the whole 32-byte signing root (an unbounded [:] of the value returned by ComputeSigningRoot or a signing-root helper), (b) the signing root combines an object of the type the spec assigns to the signature domain that reaches it (traced through GetDomain/ComputeDomain/domain-function parameters to a DOMAIN_* variable), with the spec's fork-version class for fixed-version domains, (c) decided on the control-flow graph under an assumption: with the verification taken to have FAILED every path from it ends in a refusal (an error, false, a verdict other than ACCEPT; the skipped deposit of process_deposit) or hands the verdict on, and with it taken to have SUCCEEDED not every path ends in a certain refusal (the test is not inverted) — whatever the statement shape (if !v, if v {…}, a flag, a switch, a helper); (d) always: every path to an accepting exit (nil error, true, ACCEPT) evaluates the verification, also when it is reached through a module function that hands its verdict on, with what stands right of && / || read as evaluated only sometimes; the two places where the spec itself skips it are the reviewed blsConditional",
 		Run: ruleBLSVerify})
 	register(&Rule{Name: "seed.domain", Floor: 3,
 		Doc: "each GetSeed call mixes in the domain the spec assigns to its consumer: shuffling -> BEACON_ATTESTER, proposers -> BEACON_PROPOSER, sync committee -> SYNC_COMMITTEE",
@@ -354,6 +354,7 @@ func ruleBLSVerify(c *Ctx) {
 	t := newBLSTracer(c.P)
 	nSites := 0
 	blsAlways(c)
+	blsPrimitives(c)
 	c.P.funcDecls(func(pk *packages.Package, fd *ast.FuncDecl) {
 		info := pk.TypesInfo
 		parents := parentMap(fd.Body)
